@@ -39,6 +39,7 @@ from collections import Counter
 class Result:
     def __init__(self):
         self.evals = Counter()
+        self.evals_later = Counter()  # the part of evals located in a 2nd, 3rd ... run() on the same loop object
         self.obs = Counter()
         self.violations: list[dict] = []
 
@@ -64,7 +65,7 @@ def _exc_name(r):
     return r.get("type", "?")
 
 
-def check(hist: list[dict], mode: str, eps_due: float, res_order: float, qwait: float) -> Result:
+def check(hist: list[dict], mode: str, eps_due: float, res_order: float, qwait: float, idles_survive: bool = True) -> Result:
     R = Result()
     virtual = mode == "virtual"
 
@@ -132,6 +133,7 @@ def check(hist: list[dict], mode: str, eps_due: float, res_order: float, qwait: 
         due_lo = a["t0"] + a["sec"]
         for i in a["entries"][:1]:
             R.evals["alarm-not-early"] += 1
+            R.evals_later["alarm-not-early"] += bool(seg_of[i])
             t = hist[i]["t"]
             if t < due_lo - eps_due:
                 early = due_lo - t
@@ -182,6 +184,7 @@ def check(hist: list[dict], mode: str, eps_due: float, res_order: float, qwait: 
             if not a_due_hi + res_order < b_due_lo:
                 continue
             R.evals["alarm-order"] += 1
+            R.evals_later["alarm-order"] += bool(seg_of[ib])
             rm = [i for i, _ret, _c in a["removes"]]  # any removal attempt before B's entry excuses A
             if any(i < ib for i in rm):
                 continue
@@ -206,6 +209,7 @@ def check(hist: list[dict], mode: str, eps_due: float, res_order: float, qwait: 
             if w["fd"] not in hist[i]["readable"]:
                 R.bad("watch-readable", "callback-while-not-readable", f"watch {cid} entered while fd {w['fd']} not readable", i)
             R.evals["watch-after-remove"] += 1
+            R.evals_later["watch-after-remove"] += bool(seg_of[i])
             if rm is not None and i > rm:
                 ctx = next(c for j, _r, c in w["removes"] if j == rm)
                 R.bad(
@@ -220,6 +224,7 @@ def check(hist: list[dict], mode: str, eps_due: float, res_order: float, qwait: 
         rm = removed_at(d)
         for i in d["entries"]:
             R.evals["idle-after-remove"] += 1
+            R.evals_later["idle-after-remove"] += bool(seg_of[i])
             if rm is not None and i > rm:
                 ctx = next(c for j, _r, c in d["removes"] if j == rm)
                 R.bad(
@@ -233,9 +238,13 @@ def check(hist: list[dict], mode: str, eps_due: float, res_order: float, qwait: 
 
     # ---------------------------------------------------------------- quiescence rules (idle, watch-served)
     def active(tbl, cid, lo, hi):
-        """registered before index lo and no removal attempt up to index hi"""
+        """registered before index lo and no removal attempt up to index hi.  Watches count only in the run()
+        segment they were registered for; idle callbacks registered for an earlier run() still count in a later one
+        when the loop keeps them (idles_survive; false for trio, whose run() clears them on exit)"""
         r = tbl[cid]
-        if r["reg"] > lo or seg_of[r["reg"]] != seg_of[lo]:
+        if r["reg"] > lo:
+            return False
+        if seg_of[r["reg"]] != seg_of[lo] and not (tbl is idles and idles_survive):
             return False
         return not any(j <= hi for j, _ret, _c in r["removes"])
 
@@ -245,6 +254,10 @@ def check(hist: list[dict], mode: str, eps_due: float, res_order: float, qwait: 
             if not active(idles, cid, p_exit, q_idx):
                 continue
             R.evals["idle-before-quiescent"] += 1
+            if seg_of[q_idx]:
+                R.evals_later["idle-before-quiescent"] += 1
+                if seg_of[idles[cid]["reg"]] != seg_of[q_idx]:
+                    R.evals_later["idle-before-quiescent:idle-registered-for-an-earlier-run"] += 1
             if not any(p_exit < j < q_idx for j in idles[cid]["entries"]):
                 why = ""
                 begin = max((k for k in range(p_exit) if hist[k]["e"] == "run_begin"), default=0)
@@ -288,6 +301,7 @@ def check(hist: list[dict], mode: str, eps_due: float, res_order: float, qwait: 
                 if not active(watches, cid, i, i):
                     continue
                 R.evals["watch-served"] += 1
+                R.evals_later["watch-served"] += bool(seg_of[i])
                 if w["fd"] not in ev.get("readable_from", ()):
                     unserved.pop(cid, None)
                 elif virtual:
@@ -342,6 +356,7 @@ def check(hist: list[dict], mode: str, eps_due: float, res_order: float, qwait: 
         first = r1ev["raised"]
         clause = "exit-silent" if _is_exit(first) else "exc-reraised"
         R.evals[clause] += 1
+        R.evals_later[clause] += bool(seg_of[s["end"]])
         if len(s["raises"]) > 1:
             R.obs["more-than-one-callback-raised-in-a-run"] += 1
         # did the loop continue (go quiescent) after the first raise?
